@@ -14,6 +14,15 @@ class C(B): ...
 class E: ...
 
 
+import abc
+import enum
+
+
+class MA(A, metaclass=abc.ABCMeta): ...  # classes whose metaclass is not `type` are types too
+class En(enum.Enum):
+    one = 1
+
+
 def main():
     failing, n = {}, 0
 
@@ -24,7 +33,7 @@ def main():
             f["violations"].append(d)
 
     anns = {"type[A]": type[A], "type[B]": type[B], "type[object]": type[object], "type": type, "object": object, "type[list[A]]": type[list[A]], "type[list[B]]": type[list[B]], "type[list]": type[list], "A": A, "Any": typing.Any}
-    passed = {"A": A, "B": B, "C": C, "E": E, "int": int, "list[A]": list[A], "list[B]": list[B], "list[C]": list[C], "list": list, "Any": typing.Any, "A()": A(), "B()": B(), "1": 1}
+    passed = {"A": A, "B": B, "C": C, "E": E, "int": int, "list[A]": list[A], "list[B]": list[B], "list[C]": list[C], "list": list, "Any": typing.Any, "A()": A(), "B()": B(), "1": 1, "MA": MA, "En": En, "MA()": MA(), "En.one": En.one}
 
     def subtype(x, t):
         """documented meaning: x (a passed type) against the parameter T of type[T]"""
@@ -98,13 +107,13 @@ def main():
     # spellings of the special annotations: strings (from __future__ import annotations) and Annotated
     from typing import Annotated
 
-    for label, ann, glb in (("string_type", "type", {}), ("string_Any", "Any", {"Any": typing.Any}), ("annotated_type", Annotated[type, "m"], {}), ("annotated_Any", Annotated[typing.Any, "m"], {})):
+    for label, ann, glb in (("string_type", "type", {}), ("string_Any", "Any", {"Any": typing.Any}), ("annotated_type", Annotated[type, "m"], {}), ("annotated_Any", Annotated[typing.Any, "m"], {}), ("bare_type", type, {}), ("annotated_type_of_A", Annotated[type[A], "m"], {}), ("string_type_of_A", "type[A]", {"A": A})):
         ov = Ovld(name="s")
         g = dict(glb)
         g["ANN"] = ann
         exec(f"def m(x: {ann!r}):\n    return 'special'\n" if isinstance(ann, str) else "def m(x: ANN):\n    return 'special'\n", g)
         ov.register(g["m"])
-        probes = [int, list[int], A] if "type" in label else [1, "s", A()]
+        probes = [A, B] if "of_A" in label else [int, list[int], A] if "type" in label else [1, "s", A()]
         for v in probes:
             n += 1
             try:
@@ -113,6 +122,28 @@ def main():
                 got = "NOMETHOD" if str(e).startswith("No method") else "TypeError"
             if got != "special":
                 fail(f"special_annotation_spelling[{label}]", passed=repr(v), got=got)
+        if "type" in label:
+            # the same spelling next to an `object` method and a second ordinary parameter: classes go to the special
+            # method, ordinary values to the other one
+            ov2 = Ovld(name="s2")
+            g2 = dict(glb)
+            g2["ANN"] = ann
+            exec(f"def m(t: {ann!r}, y: int):\n    return 'special'\n" if isinstance(ann, str) else "def m(t: ANN, y: int):\n    return 'special'\n", g2)
+            ov2.register(g2["m"])
+
+            def other(t: object, y: int):
+                return "object"
+
+            ov2.register(other)
+            cases = ((A, "special"), (B, "special"), (int, "object"), (1, "object"), (A(), "object")) if "of_A" in label else ((int, "special"), (A, "special"), (list[int], "special"), (1, "object"), (A(), "object"))
+            for v, want in cases:
+                n += 1
+                try:
+                    got = ov2(v, 1)
+                except TypeError as e:
+                    got = "AMBIGUOUS" if str(e).startswith("Ambiguous") else "NOMETHOD" if str(e).startswith("No method") else "TypeError"
+                if got != want:
+                    fail(f"special_annotation_next_to_an_object_method[{label}]", passed=repr(v), got=got, expected=want)
     # ordinary arguments in the same call keep dispatching on their class
     ov = Ovld(name="two")
 
